@@ -141,7 +141,7 @@ def gen_exts(rng, i, upper=None):
     if r < 0.3 and order:
         # break the chain somewhere: the result is whatever the implementation says; the oracle only
         # relates the failing-writer runs to the unlimited run
-        how = rng.randrange(5)
+        how = rng.randrange(6)
         final = None
         if how == 0:
             first = rng.choice([0, 60, 43, 44, 51, 17])
@@ -151,6 +151,10 @@ def gen_exts(rng, i, upper=None):
             a, b = rng.sample(order, 2)
             vals[a]["nh"], vals[b]["nh"] = vals[b]["nh"], vals[a]["nh"]
         elif how == 3:
+            vals[order[-1]]["nh"] = 0
+        elif how == 4 and "hbh" in order and len(order) > 1:
+            # hop-by-hop referenced from the end of the chain instead of the start
+            first = EXT_NUM[order[1]]
             vals[order[-1]]["nh"] = 0
         else:
             first = upper
